@@ -131,6 +131,29 @@ func runC16(c *Ctx) {
 				"this "+o.kind+" is used without the options having been applied (separator, comment, quoting … would silently differ from the other kinds)")
 		}
 	}
+	// a *csv.Writer (resp. *csv.Reader) handed in by the caller also satisfies the CSVWriter (CSVReader) interface: it must be
+	// told apart from the generic case somewhere, or the options can never be applied to it
+	for _, pr := range [][3]string{{"rt.CSVWriter", "*encoding/csv.Writer", "writer"}, {"rt.CSVReader", "*encoding/csv.Reader", "reader"}} {
+		var generic []ssa.Instruction
+		concrete := 0
+		for _, fn := range p.LibFuncs("rt") {
+			for _, in := range instrs(fn) {
+				ta, ok := in.(*ssa.TypeAssert)
+				if !ok {
+					continue
+				}
+				switch typeStr(ta.AssertedType) {
+				case pr[0]:
+					generic = append(generic, in)
+				case pr[1]:
+					concrete++
+				}
+			}
+		}
+		for _, g := range generic {
+			c.obD("R16.1", g, "csv-"+pr[2]+"-object-told-apart", concrete > 0, "a "+pr[1]+" supplied by the caller is recognised as such (it also satisfies "+pr[0]+"): only then can the configured options be applied to it like to every other kind", "no code tells a "+pr[1]+" apart from the generic "+pr[0]+": the options are never applied to it")
+		}
+	}
 	// … and nothing but applyToReader / applyToWriter configures them: no other function of the package writes a field
 	// of a csv.Reader or csv.Writer (a setting forced for one destination kind — ReuseRecord, say — makes the kinds
 	// disagree and overrides the caller's option)
